@@ -1454,6 +1454,11 @@ class BinaryOperator(SymbolicExpression, ABC):
                 required_vars.update(conc._unique_variables_)
         if self._parent_:
             required_vars.update(self._parent_._required_variables_from_child_(self, when_true))
+            if child is self.left and when_true:
+                # a true output of the LEFT operand does not decide this operator: it may still turn out false, and what
+                # the parent needs of a false output (e.g. the variables of the other branch of a disjunction) must tell
+                # two left outputs apart as well
+                required_vars.update(self._parent_._required_variables_from_child_(self, False))
         return required_vars
 
 
